@@ -6,6 +6,7 @@ func init() {
 	vHarnesses["VH_C16_gate"] = VH_C16_gate
 	vHarnesses["VH_C16_gate_dice"] = VH_C16_gate_dice
 	vHarnesses["VH_C16_macro"] = VH_C16_macro
+	vHarnesses["VH_C16_st"] = VH_C16_st
 }
 
 func vC16Check(vm *Context, wod, coc, fate, dc, noStmts, noNDice, noBit bool) {
@@ -98,4 +99,31 @@ func VH_C16_macro() {
 			_ = flags[i]
 		}
 	}
+}
+
+// what precedes the tested value in an st command: the value is the first
+// item, follows one or two plain items (whose values are parsed with the
+// flags pushed and popped), a computed item, or is a modification amount
+var vC16StPrefixes = []string{
+	"^stxx", "^stxx1 yy", "^stxx1 zz2,yy", "^st&xx=1 yy", "^stxx=3 yy:", "^stxx+1 yy+", "^stxx1 &yy=", "^stxx1yy2 zz",
+}
+
+var vC16StValues = []string{
+	"2d", "1|2", "1&2", "2a5", "b2", "f", "2c5", "p", "2a5k2",
+	"`{% if 1 {2} %}`", "`{% func fn1(){1}; fn1() %}`", "`{% i=0; while i<3 {i=i+1}; i %}`", "`{2d}`", "`{1|2}`",
+}
+
+//vh:prop=C16 tiers=quick,thorough overrides=formatFriendlyError unwind=400 unwind_ok=1 budget_s=1500 quick:P.n=2 thorough:P.n=3 bounds="st commands: a parenthesised value in 8 positions (first item, after one or two plain items, after a computed item, after ':', as a modification amount, as a computed item's expression, after an item without separator) holding one of 14 gated constructs (default-sides dice, bitwise operators, each dice family, template holes with if / function / loop) or n symbolic bytes (2 quick, 3 thorough) over {a b c f p d 1 2 | &}; flags symbolic as in VH_C16_gate"
+func VH_C16_st() {
+	pre := vC16StPrefixes[vChoice("prefix", len(vC16StPrefixes))]
+	var src []byte
+	src = append(src, pre...)
+	src = append(src, '(')
+	if vChoice("inner", 2) == 0 {
+		src = append(src, vC16StValues[vChoice("value", len(vC16StValues))]...)
+	} else {
+		src = append(src, vSymSource("b", vParam("n", 2), "abcfpd12|&")...)
+	}
+	src = append(src, ')')
+	vC16Run(src)
 }
